@@ -309,7 +309,13 @@ pub fn gen_case(seed: u64, index: u64, t: &Tables<'_>) -> Case {
     let mut r = Rng::new(seed, index);
     let m = gen_mix(&mut r);
     let layer = if t.type_names.is_empty() || r.chance(1, 2) {
-        let k = *r.pick(&[0usize, 1, 1, 2, 2, 3, 4, 5, 8]);
+        let mut k = *r.pick(&[0usize, 1, 1, 2, 2, 3, 4, 5, 8]);
+        // rarely a very long history: counters of the builder at and around 255 / 256 (a stream of its own, so
+        // that the other runs of a seed stay what they were)
+        let mut long = Rng::new(seed ^ 0x10F6_10F6, index);
+        if long.chance(1, 500) {
+            k = *long.pick(&[254usize, 255, 256, 257, 258, 300, 513]);
+        }
         let mut fields = Vec::new();
         for _ in 0..k {
             let mut b = (m.max_actions / k.max(1)).max(1) + 1;
